@@ -360,4 +360,15 @@ def r12_names(ctx):
         o["rule"] = "R12"
 
 
-RULES = [("R1", r1_inverse), ("R2", r2_sets), ("R3", r3_delimiter), ("R4", r4_split_before_unescape), ("R5", r5_keys), ("R6", r6_quote_target), ("R7", r7_bool_table), ("R8", r8_lists), ("R9", r9_numeric_table), ("R10", r10_option_table), ("R11", r11_charrefs), ("R12", r12_names)]
+def r13_whole_writes(ctx):
+    """serializing into an io::Write goes through the ToFmtWrite adapter: it must hand over all of every fragment
+    (C13 R5 re-evaluated: write_all, never a bare write())"""
+    import c13
+    n0 = len(ctx.obs)
+    c13.r5_no_partial_write(ctx)
+    for o in ctx.obs[n0:]:
+        o["site"] = "sink:" + o["site"]
+        o["rule"] = "R13"
+
+
+RULES = [("R1", r1_inverse), ("R2", r2_sets), ("R3", r3_delimiter), ("R4", r4_split_before_unescape), ("R5", r5_keys), ("R6", r6_quote_target), ("R7", r7_bool_table), ("R8", r8_lists), ("R9", r9_numeric_table), ("R10", r10_option_table), ("R11", r11_charrefs), ("R12", r12_names), ("R13", r13_whole_writes)]
